@@ -40,6 +40,9 @@ pub struct FaultReplay {
     pub detail: Vec<String>,
     pub shim_ring: String,
     pub minimised_from_steps: usize,
+    /// C11 under faults: judge the frame (everything outside the layer) instead of the result
+    #[serde(default)]
+    pub frame_mode: bool,
 }
 
 #[derive(Clone, Debug, Default, Serialize, Deserialize)]
@@ -202,7 +205,15 @@ pub struct PairOutcome {
 }
 
 /// Enumerate every fault position of the target op. `only` restricts to one (k, errno).
+#[allow(dead_code)]
 fn enumerate(p: &mut Prepared, shim: &Shim, seed: u64, only: Option<(i64, i32)>) -> Result<PairOutcome, String> {
+    enumerate_mode(p, shim, seed, only, false)
+}
+
+/// `frame_mode`: whatever the faulted call returns, everything outside the requested layer
+/// (other layers, foreign entries, the canary trees incl. modes and link targets) must be
+/// exactly as before the call (C11 under faults).
+fn enumerate_mode(p: &mut Prepared, shim: &Shim, seed: u64, only: Option<(i64, i32)>, frame_mode: bool) -> Result<PairOutcome, String> {
     let rdseed = splitmix64(seed ^ 0xfa17) | 1;
     let hseed = seed ^ 0x7a26e7;
     let count_fault = Fault {
@@ -225,11 +236,14 @@ fn enumerate(p: &mut Prepared, shim: &Shim, seed: u64, only: Option<(i64, i32)>)
         skipped_no_success: false,
         pre_class,
     };
-    if !obs_ok.is_ok() {
+    if !obs_ok.is_ok() && !frame_mode {
         out.skipped_no_success = true;
         return Ok(out);
     }
     let s_ok = p.world.snapshot().map_err(|e| e.to_string())?;
+    let frame_before = target
+        .layer()
+        .map(|l| super::check::strip_layer(&p.model_before, l, &p.s0));
     let n = st_ok.matched;
     for k in 1..=n {
         for (errno, _name) in ERRNOS {
@@ -258,6 +272,25 @@ fn enumerate(p: &mut Prepared, shim: &Shim, seed: u64, only: Option<(i64, i32)>)
             }
             let is_err = !obs.is_ok();
             out.fired.push((st.fired_call.clone(), errno, is_err));
+            if frame_mode {
+                if let (Some(l), Some(before)) = (target.layer(), &frame_before) {
+                    let s_k = p.world.snapshot().map_err(|e| e.to_string())?;
+                    let after = super::check::strip_layer(&p.model_before, l, &s_k);
+                    if after != *before {
+                        let lines = snap::diff(before, &after, &|_, _, _| None, &[]);
+                        let mut detail = vec![format!(
+                            "{} touched something outside the layer when its file-system call #{k} of {n} ({}) failed with errno {errno} (call returned {}):",
+                            target.kind_name(),
+                            st.fired_call,
+                            if is_err { "an error" } else { "success" }
+                        )];
+                        detail.extend(lines.into_iter().take(8));
+                        out.violation = Some((k, errno, st.fired_call.clone(), detail, shim.ring()));
+                        return Ok(out);
+                    }
+                }
+                continue;
+            }
             if !is_err {
                 let s_k = p.world.snapshot().map_err(|e| e.to_string())?;
                 if s_k != s_ok {
@@ -300,14 +333,35 @@ fn signature(target: &Op, call: &str) -> String {
 }
 
 pub fn worker_pairs(global_seed: u64, from: u64, to: u64, scratch: &Path, shim: &Shim, max_steps: usize) -> FaultSummary {
+    worker_pairs_mode(global_seed, from, to, scratch, shim, max_steps, false)
+}
+
+fn pick_deleting_target(history: &History) -> Option<usize> {
+    // the last request whose model path deletes or recreates the layer
+    let mut model = Model::new(b"/ROOT", history);
+    let mut found = None;
+    for (i, op) in history.ops.iter().enumerate() {
+        if !model.enabled(op) {
+            continue;
+        }
+        let exp = model.apply(op);
+        if op.is_request() && (exp.path.contains("delete") || exp.path.contains("recreate")) {
+            found = Some(i);
+        }
+    }
+    found
+}
+
+pub fn worker_pairs_mode(global_seed: u64, from: u64, to: u64, scratch: &Path, shim: &Shim, max_steps: usize, frame_mode: bool) -> FaultSummary {
     let mut sum = FaultSummary::default();
     for j in from..to {
         if sum.violations.len() >= 3 {
             break;
         }
-        let seed = run_seed(global_seed, "e1-fault", j);
-        let (mut history, _sw) = generate::gen_history(seed, Class::Mixed, max_steps);
-        let Some(target) = pick_target(&history) else {
+        let seed = run_seed(global_seed, if frame_mode { "e1-fault-frame" } else { "e1-fault" }, j);
+        let (mut history, _sw) = generate::gen_history(seed, if frame_mode { Class::C11 } else { Class::Mixed }, max_steps);
+        let picked = if frame_mode { pick_deleting_target(&history) } else { pick_target(&history) };
+        let Some(target) = picked else {
             sum.pairs_skipped_disabled += 1;
             continue;
         };
@@ -324,12 +378,13 @@ pub fn worker_pairs(global_seed: u64, from: u64, to: u64, scratch: &Path, shim: 
                 continue;
             }
         };
-        match enumerate(&mut prepared, shim, seed, None) {
+        match enumerate_mode(&mut prepared, shim, seed, None, frame_mode) {
             Err(e) => {
                 if e.contains("panicked") {
                     sum.violations.push(FaultReplay {
+                        frame_mode,
                         engine: "e1-fault".into(),
-                        property: "C12".into(),
+                        property: if frame_mode { "C11".into() } else { "C12".into() },
                         seed,
                         pair_index: j,
                         minimised_from_steps: history.ops.len(),
@@ -384,12 +439,17 @@ pub fn worker_pairs(global_seed: u64, from: u64, to: u64, scratch: &Path, shim: 
                 if let Some((k, errno, call, detail, ring)) = o.violation {
                     if sum.violations.len() < 3 {
                         sum.violations.push(FaultReplay {
+                            frame_mode,
                             engine: "e1-fault".into(),
-                            property: "C12".into(),
+                            property: if frame_mode { "C11".into() } else { "C12".into() },
                             seed,
                             pair_index: j,
                             minimised_from_steps: history.ops.len(),
-                            signature: signature(&history.ops[target], &call),
+                            signature: if frame_mode {
+                                format!("I-frame-under-fault:{}:{}", history.ops[target].kind_name(), call)
+                            } else {
+                                signature(&history.ops[target], &call)
+                            },
                             history: history.clone(),
                             target,
                             k,
@@ -419,11 +479,13 @@ fn minimise(rep: &FaultReplay, scratch: &Path, shim: &Shim) -> FaultReplay {
         cand.target -= 1;
         let found = (|| -> Option<(i64, i32, String, Vec<String>, String)> {
             let mut p = prepare(&cand.history, cand.target, &root, shim, cand.seed).ok()??;
-            let o = enumerate(&mut p, shim, cand.seed, None).ok()?;
+            let o = enumerate_mode(&mut p, shim, cand.seed, None, cand.frame_mode).ok()?;
             o.violation
         })();
         match found {
-            Some((k, errno, call, detail, ring)) if signature(&cand.history.ops[cand.target], &call) == rep.signature => {
+            Some((k, errno, call, detail, ring))
+                if rep.frame_mode || signature(&cand.history.ops[cand.target], &call) == rep.signature =>
+            {
                 cand.k = k;
                 cand.errno = errno;
                 cand.errno_name = ERRNOS.iter().find(|(e, _)| *e == errno).map_or("?", |(_, n)| n).to_string();
@@ -445,7 +507,7 @@ fn replay_once(rep: &FaultReplay, scratch: &Path, shim: &Shim) -> serde_json::Va
         let Some(mut p) = prepare(&rep.history, rep.target, &root, shim, rep.seed)? else {
             return Ok(None);
         };
-        let o = enumerate(&mut p, shim, rep.seed, Some((rep.k, rep.errno)))?;
+        let o = enumerate_mode(&mut p, shim, rep.seed, Some((rep.k, rep.errno)), rep.frame_mode)?;
         Ok(o.violation)
     })();
     let _ = snap::wipe(&root);
@@ -490,8 +552,9 @@ pub fn worker(args: &[String]) -> i32 {
     let to: u64 = arg_after(args, "--to").and_then(|s| s.parse().ok()).unwrap_or(0);
     let id = arg_after(args, "--id").unwrap_or_else(|| "0".into());
     let max_steps: usize = arg_after(args, "--max-steps").and_then(|s| s.parse().ok()).unwrap_or(12);
+    let frame_mode = args.iter().any(|a| a == "--frame");
     let s = scratch(&id);
-    let sum = worker_pairs(crate::global_seed(), from, to, &s, &shim, max_steps);
+    let sum = worker_pairs_mode(crate::global_seed(), from, to, &s, &shim, max_steps, frame_mode);
     let _ = snap::wipe(&s);
     let _ = std::fs::remove_dir(&s);
     println!("RESULT {}", serde_json::to_string(&sum).unwrap_or_default());
@@ -584,6 +647,62 @@ pub fn run_inprocess(tier: &str) -> (FaultSummary, Vec<(FaultReplay, PathBuf)>, 
         reported.push((min, path));
     }
     (sum, reported, known_hits)
+}
+
+/// C11 under faults: fan out, minimise, persist. Returns (summary, replay files written).
+pub fn run_frame_faults(tier: &str) -> (FaultSummary, Vec<(FaultReplay, PathBuf)>) {
+    let pairs: u64 = std::env::var("VERIF_FRAME_PAIRS")
+        .ok()
+        .and_then(|s| s.parse().ok())
+        .unwrap_or(if tier == "thorough" { 20_000 } else { 600 });
+    let mut argvs = Vec::new();
+    for (i, (from, to)) in pool::ranges(pairs, pool::workers()).into_iter().enumerate() {
+        argvs.push(
+            ["worker", "e1-fault", "--frame", "--from", &from.to_string(), "--to", &to.to_string(), "--id", &format!("fr{i}"), "--max-steps", "14"]
+                .iter()
+                .map(|s| (*s).to_string())
+                .collect(),
+        );
+    }
+    let results: Vec<FaultSummary> = match pool::run_workers(argvs, true) {
+        Ok(r) => r,
+        Err(PoolError::Harness(e)) => harness_fail(&e),
+    };
+    let mut sum = FaultSummary::default();
+    for r in results {
+        sum.merge(r);
+    }
+    if let Some(e) = sum.harness_errors.first() {
+        harness_fail(e);
+    }
+    let mut out = Vec::new();
+    let mut seen: Vec<String> = Vec::new();
+    sum.violations.sort_by_key(|v| v.pair_index);
+    for v in &sum.violations {
+        if seen.contains(&v.signature) || seen.len() >= 2 {
+            continue;
+        }
+        seen.push(v.signature.clone());
+        let dir = crate::scratch_root();
+        let _ = std::fs::create_dir_all(&dir);
+        let inp = dir.join(format!("frmin-{}.json", v.pair_index));
+        let _ = std::fs::write(&inp, serde_json::to_string(v).unwrap_or_default());
+        let argv = vec!["worker".to_string(), "e1-fault".to_string(), "--minimise".to_string(), inp.display().to_string()];
+        let min: FaultReplay = match pool::run_workers::<FaultReplay>(vec![argv], true) {
+            Ok(mut r) if !r.is_empty() => r.remove(0),
+            _ => v.clone(),
+        };
+        let _ = std::fs::remove_file(&inp);
+        let rdir = pool::out_root().join("replays");
+        let _ = std::fs::create_dir_all(&rdir);
+        let text = serde_json::to_string_pretty(&min).unwrap_or_default();
+        let path = rdir.join(format!("C11-{:08x}.json", crate::rng::hash_str(&text) & 0xffff_ffff));
+        if let Err(e) = std::fs::write(&path, text + "\n") {
+            harness_fail(&format!("cannot write replay: {e}"));
+        }
+        out.push((min, path));
+    }
+    (sum, out)
 }
 
 pub fn run_check(tier: &str) -> i32 {
